@@ -101,9 +101,12 @@ def render_block(e, ind, force=False):
 
 def render_program(p):
     out = []
-    for n, e in p.get('globals', []):
-        out.append('let %s = %s\n' % (n, render_expr(e, 0)))
+    glob = ['let %s = %s\n' % (n, render_expr(e, 0)) for n, e in p.get('globals', [])]
+    if not p.get('globals_last'):
+        out += glob
     for name, params, body in p['fns']:
+        if name == 'dsp' and p.get('globals_last'):
+            out += glob          # globals that call functions are written after the functions they use, in front of dsp
         ps = ', '.join((('%s:%s' % (q[0], q[1]) if q[1] and len(q) < 3 else q[0]) + (' = %s' % render_expr(q[2], 0) if len(q) > 2 else '')) for q in params)
         ret = ''
         out.append('fn %s(%s)%s{\n  %s\n}\n' % (name, ps, ret, render_expr(body, 1)))
@@ -171,6 +174,7 @@ class RefEval(object):
 
     def run_globals(self):
         env = {}
+        self.genv = env          # a global initialiser may call functions, which see the globals defined so far
         for n, e in self.prog.get('globals', []):
             env[n] = Cell(self.eval(e, env, ('global', n), None))
         self.genv = env
